@@ -146,3 +146,8 @@ Definition m_is_multiple_of (a b : Z) : bool := if b =? 0 then a =? 0 else a mod
 (* Value::unpack_num().and_then(NumRef::as_int): an integer value that is an i32 (floats are `VOther` here) *)
 Definition m_unpack_num (v : value) : option rep := StarlarkIntRef_unpack v.
 Definition m_as_int (r : rep) : option Z := unpack_i32 r.
+
+(* ---- codemap.rs: Span { begin: Pos, end: Pos }, Pos(u32) ------------------------------------------------ *)
+Record span := { f_begin : Z; f_end : Z }.
+Definition cmp_min := Z.min.
+Definition cmp_max := Z.max.
